@@ -405,6 +405,54 @@ func (c *ctx) pubsubRound(r *vlib.Rand, round int) {
 
 	c.wireCases(e, r, round, ctx, fresh, cids)
 
+	// a pubsub arrival overlapping a direct announcement of the same CID at B: B's slot
+	// holds X (nobody reads), the watcher is pending with Y, Direct(Y) comes in: duplicate
+	{
+		_, x := fresh()
+		yNo, y := fresh()
+		_ = e.sender.Send(ctx, message.Message{Cid: x, ExtraData: []byte("ov1")})
+		time.Sleep(120 * time.Millisecond)
+		_ = e.sender.Send(ctx, message.Message{Cid: y, ExtraData: []byte("ov2")})
+		time.Sleep(120 * time.Millisecond)
+		done := make(chan error, 1)
+		go func() {
+			dctx, dcancel := context.WithTimeout(ctx, 4*time.Second)
+			defer dcancel()
+			done <- e.B.Direct(dctx, y, peer.AddrInfo{ID: recvdrv.Peer(1)})
+		}()
+		time.Sleep(60 * time.Millisecond)
+		ny := 0
+		for {
+			a, err := nextAnn(e.B, 400*time.Millisecond)
+			if err != nil {
+				break
+			}
+			if gc, _, _ := e.annOf(a, cids); gc == yNo {
+				ny++
+			}
+		}
+		derr := <-done
+		for {
+			a, err := nextAnn(e.B, 200*time.Millisecond)
+			if err != nil {
+				break
+			}
+			if gc, _, _ := e.annOf(a, cids); gc == yNo {
+				ny++
+			}
+		}
+		c.Eval()
+		c.Count("pubsub:arrival-overlapping-direct")
+		if ny != 1 || derr != nil {
+			fail("overlap:delivered-twice", fmt.Sprintf("CID %d arrived on the topic and through Direct while nobody was reading: delivered %d times (Direct: %v)", yNo, ny, derr))
+		}
+		for { // R got X and Y too
+			if _, err := nextAnn(e.R, 150*time.Millisecond); err != nil {
+				break
+			}
+		}
+	}
+
 	// own republication while the CID is NOT in the filter: stall R's watcher on a full out
 	// slot, hand R a direct announcement (its republication queues up behind the stalled
 	// watcher), un-cache the CID, then drain.  The republication must still be ignored.
